@@ -107,6 +107,17 @@ def mutants(j):
         a = find(m, lambda d: d.get("type") == "Article")
         a["revision"] = str(a.get("revision") or "") + "1"
         res["article-revision"] = m
+        # falsy but meaningful values: revision 0 is a revision, an empty title is a title
+        for name, key, val in (("article-revision-zero", "revision", 0), ("article-revision-empty", "revision", ""),
+                               ("article-title-empty", "title", "")):
+            m = copy.deepcopy(j)
+            a = find(m, lambda d: d.get("type") == "Article")
+            if key in a and (a[key] == val and type(a[key]) is type(val)):
+                continue
+            if key not in a and name == "article-revision-empty":
+                continue
+            a[key] = val
+            res[name] = m
     m = copy.deepcopy(j)
     c = find(m, lambda d: isinstance(d.get("items"), list) and len(d["items"]) >= 2 and d["items"][0] != d["items"][1])
     if c is not None:
@@ -117,11 +128,72 @@ def mutants(j):
     if c is not None:
         c["title"] = (c.get("title") or "") + "x"
         res["chapter-title"] = m
+        m = copy.deepcopy(j)
+        c = find(m, lambda d: d.get("type") == "Chapter")
+        if "title" in c and c["title"] != "":          # an absent title reads as the class default "": no difference
+            c["title"] = ""
+            res["chapter-title-empty"] = m
     m = copy.deepcopy(j)
     if isinstance(m.get("items"), list) and m["items"]:
         m["items"].pop()
         res["item-removed"] = m
     return res
+
+
+def containers(v, acc=None):
+    """id() of every mutable container reachable from v (objects, their __dict__ values, lists, dicts)."""
+    if acc is None:
+        acc = {}
+    if isinstance(v, metabook.MetabookObject):
+        if id(v) not in acc:
+            acc[id(v)] = v.__class__.__name__
+            for x in v.__dict__.values():
+                containers(x, acc)
+    elif isinstance(v, dict):
+        if id(v) not in acc:
+            acc[id(v)] = "dict"
+            for x in v.values():
+                containers(x, acc)
+    elif isinstance(v, list):
+        if id(v) not in acc:
+            acc[id(v)] = "list"
+            for x in v:
+                containers(x, acc)
+    return acc
+
+
+def aliased(x, y):
+    a, b = containers(x), containers(y)
+    return sorted(a[i] for i in a if i in b)
+
+
+def apply_mut(b, mut):
+    """One thing a consumer does to ITS OWN loaded copy of a metabook."""
+    k = mut[0]
+    if k == "append":
+        b.append_article(mut[1], mut[2], **{a: unplain(v) for a, v in mut[3].items()})
+    elif k == "set":
+        setattr(b, mut[1], unplain(mut[2]))
+    elif k == "additem":
+        b.items.append(CLASSES[mut[1]](**{a: unplain(v) for a, v in mut[2].items()}))
+    elif k == "wiki":           # what set_environment does
+        b.wikis.append(metabook.WikiConf(ident=mut[1], baseurl=mut[2]))
+    elif k == "license":
+        b.licenses.append({"name": mut[1], "mw_rights_text": mut[2]})
+    elif k == "item_set":       # edit one item in place
+        if b.items:
+            setattr(b.items[mut[1] % len(b.items)], mut[2], unplain(mut[3]))
+    elif k == "item_append":    # add an article to a chapter
+        chapters = [x for x in b.items if isinstance(x, metabook.Chapter)]
+        if chapters:
+            chapters[mut[1] % len(chapters)].items.append(metabook.Article(title=mut[2]))
+    elif k == "pop":
+        if b.items:
+            b.items.pop(mut[1] % len(b.items))
+    elif k == "reverse":
+        b.items.reverse()
+    else:
+        raise RuntimeError("unknown mutation %r" % (mut,))
 
 
 def shared_defaults_report(others):
@@ -151,6 +223,7 @@ def shared_defaults_report(others):
 def run_case(case):
     out = []
     coll = None
+    last_text = [None]
     # bystanders created BEFORE the ops: nothing done to `coll` may change them
     by = [("Collection#0", metabook.Collection()), ("Chapter#0", metabook.Chapter(title="by")),
           ("Collection#1", metabook.Collection(title="other"))]
@@ -193,6 +266,7 @@ def run_case(case):
                 if not isinstance(m2, metabook.Collection):
                     raise TypeError("loads(text) is a %s" % type(m2).__name__)
                 coll = m2
+                last_text[0] = op[1]
                 return plain(coll)
             out.append(guarded(f))
         elif k == "walk":
@@ -231,6 +305,42 @@ def run_case(case):
             r = guarded(f)
             r["version"] = str(_version.version)
             out.append(r)
+        elif k == "indep":
+            # C13 over op sequences: loads() is a function of the text.  Two consumers load the SAME text; one of them
+            # works on its copy; the other copy, a later load of the text, its serialisation and the collection id of
+            # the identical request must not notice.
+            _, base, muts, use_text = op
+
+            def f():
+                t = last_text[0] if (use_text and last_text[0] is not None) else coll.dumps()
+                coll_before = json.dumps(plain(coll), sort_keys=True)
+                id1 = guarded(lambda: cid(dict(base, metabook=t)))
+                a = myjson.loads(t)
+                if not isinstance(a, metabook.Collection):
+                    return {"skipped": "not a collection"}
+                pa = plain(a)
+                ta = a.dumps()
+                b = myjson.loads(t)
+                pb = plain(b)
+                shared = aliased(a, b) + aliased(b, coll)
+                applied = [guarded(lambda m=m: apply_mut(b, m) or "ok") for m in muts]
+                pa2 = plain(a)
+                c = myjson.loads(t)
+                pc = plain(c)
+                tc = c.dumps()
+                id2 = guarded(lambda: cid(dict(base, metabook=t)))
+                res = {"text": t, "applied": applied, "shared": shared, "first": pa, "first_after": pa2, "again": pc,
+                       "second_before": pb, "dumps_first": ta, "dumps_again": tc, "id_before": id1, "id_after": id2,
+                       "titles_first": [x.title for x in a.get_articles()], "titles_again": [x.title for x in c.get_articles()],
+                       "mutated": plain(b) != pb,
+                       "bystander_changed": json.dumps(plain(coll), sort_keys=True) != coll_before}
+                # keep the output small when nothing is wrong
+                if pa == pa2 == pc:
+                    res["first_after"] = res["again"] = "=first"
+                if pb == pa:
+                    res["second_before"] = "=first"
+                return res
+            out.append(guarded(f))
         elif k == "shared":
             out.append({"ok": shared_defaults_report(others)})
         else:
